@@ -15,7 +15,7 @@ var one = big.NewInt(1)
 
 // maxLen: residual assumption A-INT — no string or slice is longer than 2^61
 // elements (the address space of a 64-bit process is far smaller).
-const maxLen = "2305843009213693952"
+const maxLen = "1099511627776" // 2^40
 
 // VC is the per-function verification-condition builder.
 type VC struct {
@@ -28,6 +28,8 @@ type VC struct {
 	preludeLen int
 	axLines map[int]axLine
 	na0     Term
+	recDefs map[string]*recDef
+	regDefs map[Term]Term // region version -> the term it was defined as
 }
 
 func newVC(eng *Engine) *VC {
@@ -58,6 +60,9 @@ func (vc *VC) region(st *State, name string, nidx int, leaf string) Term {
 		vc.eng.regions[name] = ri
 	} else if ri.nidx != nidx || ri.leaf != leaf {
 		panic(fmt.Sprintf("region %s used with sorts (%d,%s) and (%d,%s)", name, ri.nidx, ri.leaf, nidx, leaf))
+	}
+	if st.Track != nil {
+		return st.Track.formal(name)
 	}
 	t := vc.sc.declare(name+"@0", arraySort(nidx, leaf))
 	// heap well-formedness at function entry: every reference stored in the
@@ -130,6 +135,26 @@ func (vc *VC) setRegion(st *State, name string, nidx int, leaf string, t Term) {
 	nm := vc.sc.fresh(name+"@", arraySort(nidx, leaf))
 	vc.sc.assert(eq(nm, t))
 	st.Heap[name] = nm
+	if vc.regDefs == nil {
+		vc.regDefs = map[Term]Term{}
+	}
+	vc.regDefs[nm] = t
+}
+
+// rowOf returns (select reg base) with the stores that defined reg resolved
+// syntactically when they hit the same base: the row of a backing array after
+// `a[i] = v` is then literally (store <old row> i v), the shape lemma triggers
+// such as cntA(store(a, j, v), lo, n) match without array reasoning.
+func (vc *VC) rowOf(reg, base Term) Term {
+	def, ok := vc.regDefs[reg]
+	if ok && strings.HasPrefix(def, "(store ") {
+		parts := splitSexprs(def[len("(store ") : len(def)-1])
+		if len(parts) == 3 && parts[1] == base {
+			inner := app("select", parts[0], base)
+			return strings.ReplaceAll(parts[2], inner, vc.rowOf(parts[0], base))
+		}
+	}
+	return app("select", reg, base)
 }
 
 func (vc *VC) regionSort(name string) (int, string) {
@@ -205,6 +230,11 @@ func (vc *VC) storeLoc(st *State, loc *Loc, T types.Type, v Val) {
 			return
 		}
 		vc.setRegion(st, name, n, leafSort(k), stor(r, loc.Idx, t))
+		if n == 2 {
+			// redundant ground fact: the updated row, literally as a store on the old
+			// row (lets triggers of the form f(store(a, j, v), ..) match by congruence)
+			vc.sc.assert(eq(app("select", st.Heap[name], loc.Idx[0]), app("store", app("select", r, loc.Idx[0]), loc.Idx[1], t)))
+		}
 	}
 	switch k := kindOfType(T); k {
 	case KSlice:
